@@ -14,7 +14,7 @@
         match r {
             Ok(h) => b_inv(*final(self), h) && final(self).states@.len() == 256 && h.num_free_blocks == old(self).num_free_blocks
                 && h_lo(h) == 0 && h_hi(h) == 256
-                && (forall|i: int| 0 <= i < 256 ==> (#[trigger] final(self).states@[i]).base.is_none())
+                && (forall|i: int| 0 <= i < 256 ==> (#[trigger] final(self).states@[i]).base.is_none() && final(self).states@[i].fail == 0 && final(self).states@[i].opos_ch.0 == 0)
                 && (forall|j: int| 2 <= j < 256 ==> !h_used_index(h, j))
                 && (forall|j: int| 0 <= j < 256 ==> !h_used_base(h, j)),
             Err(e) => e is AutomatonScale,
@@ -125,6 +125,7 @@
                 &&& forall|i: int| 0 <= i < old(self).states@.len() ==> (#[trigger] final(self).states@[i]).base == old(self).states@[i].base
                         && final(self).states@[i].fail == old(self).states@[i].fail && st_opos(final(self).states@[i]) == st_opos(old(self).states@[i])
                 &&& forall|i: int| old(self).states@.len() <= i < final(self).states@.len() ==> (#[trigger] final(self).states@[i]).base.is_none()
+                        && final(self).states@[i].fail == 0 && final(self).states@[i].opos_ch.0 == 0
             },
             Err(e) => e is AutomatonScale,
         }
@@ -149,7 +150,7 @@
     proof {
         assert(self.states@.len() == s1.len() + 256);
         assert(forall|i: int| 0 <= i < s1.len() ==> self.states@[i] == s1[i]);
-        assert(forall|i: int| s1.len() <= i < self.states@.len() ==> (#[trigger] self.states@[i]).base.is_none());
+        assert(forall|i: int| s1.len() <= i < self.states@.len() ==> (#[trigger] self.states@[i]).base.is_none() && self.states@[i].fail == 0 && self.states@[i].opos_ch.0 == 0);
         assert(h_hi(h0) >= 256) by { assert(h0.num_blocks as int * 256 >= 256) by (nonlinear_arith) requires h0.num_blocks >= 1; }
         assert forall|j: int| (j == 0 || j == 1) && h_active(*helper, j) implies h_used_index(*helper, j) by {
             assert(h_active(h0, j));
@@ -173,9 +174,208 @@
     }
 //@}
 //@fn build_double_array
-//@rules R9 R6b R13 R7 R5
+//@rules R9 R6b R13b R7 R5 R18
+//@pre{
+#[verifier::exec_allows_no_decreases_clause]
+//@}
 //@ret r
 //@head{
     requires old(self).states@.len() == 0, old(self).num_free_blocks >= 1, nfa_tree(*nfa)
+    ensures match r {
+        Ok(_) => {
+            // da_safe: what the unchecked search code relies on
+            &&& final(self).states@.len() > 0 && final(self).states@.len() % 256 == 0 && final(self).states@.len() <= u32::MAX
+            &&& forall|i: int| 0 <= i < final(self).states@.len() ==> ((#[trigger] final(self).states@[i]).base.is_some() ==> final(self).states@[i].base.unwrap()@ < final(self).states@.len())
+            &&& forall|i: int| 0 <= i < final(self).states@.len() ==> (#[trigger] final(self).states@[i]).fail < final(self).states@.len()
+        },
+        Err(e) => e is AutomatonScale,
+    }
+//@}
+//@start{
+    broadcast use vstd::std_specs::btree::group_btree_axioms;
+    let ghost n = nfa.states@.len() as int;
+    let ghost mut done: Set<int> = Set::empty();
+    let ghost mut gstack: Seq<u32> = seq![0u32];
+//@}
+//@after 1 let mut labels = vec![];{
+    proof {
+        assert(stack@ =~= seq![0u32]);
+        assert(stack@.contains(0u32)) by { assert(stack@[0] == 0u32); }
+    }
+//@}
+//@loop 1{
+    invariant
+        gstack == stack@,
+        b_inv(*self, helper), nfa_tree(*nfa), n == nfa.states@.len(),
+        state_id_map@.len() == n,
+        forall|i: int| 0 <= i < n ==> (#[trigger] state_id_map@[i]) < self.states@.len(),
+        state_id_map@[0] == 0, state_id_map@[1] == 1,
+        forall|x: int| 0 <= x < self.states@.len() ==> (#[trigger] self.states@[x]).fail == 0,
+        forall|k: int| 0 <= k < stack@.len() ==> (#[trigger] stack@[k]) < n && stack@[k] != 1 && state_id_map@[stack@[k] as int] != 1,
+        forall|s: int, c: u8| done.contains(s) && #[trigger] nfa_edges(*nfa, s).contains_key(c) ==> 0 <= s < n && state_id_map@[nfa_edges(*nfa, s)[c] as int] != 1,
+        forall|s: int| 0 <= s < n && s != 1 && #[trigger] state_id_map@[s] != 1 ==> done.contains(s) || stack@.contains(s as u32),
+    ensures stack@.len() == 0,
+//@}
+//@before 1 assert!(state_id != DEAD_STATE_ID);{
+    let ghost sid = state_id as int;
+    let ghost edges = nfa_edges(*nfa, sid);
+    proof {
+        assert(stack@ == gstack.drop_last() && state_id == gstack.last());
+        assert forall|x: u32| gstack.contains(x) && x != state_id implies stack@.contains(x) by {
+            let k = choose|k: int| 0 <= k < gstack.len() && gstack[k] == x;
+            assert(stack@[k] == x);
+        }
+    }
+//@}
+//@before 1 continue;{
+    proof {
+        // a leaf: nothing to place, the state is done
+        done = done.insert(sid);
+        assert(forall|c: u8| !edges.contains_key(c)) by { assert(edges.dom().len() == 0); assert(edges.dom() =~= Set::<u8>::empty()); }
+        gstack = stack@;
+    }
+//@}
+//@after 1 helper.use_base(base);{
+    proof {
+        done = done.insert(sid);
+        gstack = stack@;
+    }
+//@}
+//@before 1 for verif_ref1 in{
+    let ghost kseq = verif_iter.remaining().unref();
+//@}
+//@loopiter 2 it
+//@loop 2{
+    invariant labels@.len() == it.index@, it.snapshot@.remaining().unref() == kseq,
+        forall|i: int| 0 <= i < labels@.len() ==> labels@[i] == kseq[i],
+//@}
+//@after 1 for verif_ref1 in{
+    proof {
+        assert(labels@ =~= kseq);
+        assert(labels@.to_set() == edges.dom());
+        assert(labels@.len() == edges.dom().len());
+    }
+//@}
+//@before 1 let base = self.find_base(&labels, &helper);{
+    proof {
+        assert(labels@.len() > 0);
+    }
+    let ghost len0 = self.states@.len();
+    let ghost h0 = helper;
+//@}
+//@before 1 let verif_iter2 = s.edges.iter();{
+    proof {
+        lemma_window(helper);
+        assert(base@ < self.states@.len());
+        // every child slot is vacant and active
+        assert forall|c: u8| edges.contains_key(c) implies h_active(helper, (base@ ^ (c as u32)) as int) && !h_used_index(helper, (base@ ^ (c as u32)) as int) by {
+            assert(labels@.to_set().contains(c));
+            let i = choose|i: int| 0 <= i < labels@.len() && labels@[i] == c;
+            if base@ == len0 {
+                lemma_same_block(base@, c, len0 as int, len0 as int + 256);
+            } else {
+                lemma_window(h0);
+                lemma_same_block(base@, c, h_lo(h0), h_hi(h0));
+            }
+        }
+    }
+    let ghost stack0 = stack@;
+//@}
+//@before 1 for verif_ref2 in verif_iter2{
+    proof {
+        let rem = verif_iter2.remaining();
+        assert(rem.no_duplicates());
+        assert(forall|i: int| 0 <= i < rem.len() ==> edges.contains_key(*(#[trigger] rem[i]).0) && edges[*rem[i].0] == *rem[i].1);
+        assert(forall|c: u8| edges.contains_key(c) ==> rem.contains((&c, &edges[c])));
+        assert forall|j: int| 0 <= j < rem.len() implies h_active(helper, (base@ ^ (*(#[trigger] rem[j]).0 as u32)) as int)
+                   && !h_used_index(helper, (base@ ^ (*rem[j].0 as u32)) as int) by {
+            assert(edges.contains_key(*rem[j].0));
+        }
+    }
+//@}
+//@before 1 let child_idx = base.get() ^ u32::from(c);{
+    let ghost rem = it3.snapshot@.remaining();
+    let ghost j0 = it3.index@ as int;
+    let ghost st_before = stack@;
+    let ghost h_before = helper;
+    proof {
+        assert(edges.contains_key(c) && edges[c] == child_id);
+        lemma_iter_keys_distinct(edges, rem);
+        assert(*rem[j0].0 == c);
+    }
+//@}
+//@after 1 stack.push(child_id);{
+    proof {
+        assert(stack@ == st_before.push(child_id));
+        assert(stack@[stack@.len() - 1] == child_id);
+        assert forall|x: u32| st_before.contains(x) implies stack@.contains(x) by {
+            let k = choose|k: int| 0 <= k < st_before.len() && st_before[k] == x;
+            assert(stack@[k] == x);
+        }
+        assert forall|j: int| j0 + 1 <= j < rem.len() implies h_active(helper, (base@ ^ (*(#[trigger] rem[j]).0 as u32)) as int)
+                   && !h_used_index(helper, (base@ ^ (*rem[j].0 as u32)) as int) by {
+            assert(*rem[j].0 != c);
+            if (base@ ^ (*rem[j].0 as u32)) == (base@ ^ (c as u32)) { lemma_xor_inj(base@, *rem[j].0, c); }
+            assert(h_active(h_before, (base@ ^ (*rem[j].0 as u32)) as int));
+        }
+    }
+//@}
+//@loopiter 3 it3
+//@loop 3{
+    invariant
+        b_inv(*self, helper), nfa_tree(*nfa), n == nfa.states@.len(), 0 <= sid < n, sid != 1, edges == nfa_edges(*nfa, sid),
+        state_id_map@.len() == n,
+        forall|i: int| 0 <= i < n ==> (#[trigger] state_id_map@[i]) < self.states@.len(),
+        state_id_map@[0] == 0, state_id_map@[1] == 1,
+        forall|x: int| 0 <= x < self.states@.len() ==> (#[trigger] self.states@[x]).fail == 0,
+        base@ < self.states@.len(), h_active(helper, base@ as int), state_idx < self.states@.len(),
+        ({ let rem = it3.snapshot@.remaining();
+           &&& rem.no_duplicates()
+           &&& forall|i: int| 0 <= i < rem.len() ==> edges.contains_key(*(#[trigger] rem[i]).0) && edges[*rem[i].0] == *rem[i].1
+           &&& forall|c: u8| edges.contains_key(c) ==> rem.contains((&c, &edges[c]))
+           &&& forall|j: int| it3.index@ <= j < rem.len() ==> h_active(helper, (base@ ^ (*(#[trigger] rem[j]).0 as u32)) as int)
+                   && !h_used_index(helper, (base@ ^ (*rem[j].0 as u32)) as int)
+           &&& forall|j: int| 0 <= j < it3.index@ ==> state_id_map@[*(#[trigger] rem[j]).1 as int] != 1
+           &&& stack@.len() == stack0.len() + it3.index@
+           &&& forall|j: int| 0 <= j < it3.index@ ==> stack@[stack0.len() + j] == *(#[trigger] rem[j]).1
+        }),
+        forall|k: int| 0 <= k < stack0.len() ==> stack@[k] == stack0[k],
+        forall|k: int| 0 <= k < stack@.len() ==> (#[trigger] stack@[k]) < n && stack@[k] != 1 && state_id_map@[stack@[k] as int] != 1,
+        forall|s: int, c: u8| done.contains(s) && #[trigger] nfa_edges(*nfa, s).contains_key(c) ==> 0 <= s < n && state_id_map@[nfa_edges(*nfa, s)[c] as int] != 1,
+        forall|s: int| 0 <= s < n && s != 1 && s != sid && #[trigger] state_id_map@[s] != 1 ==> done.contains(s) || stack@.contains(s as u32),
+        state_id_map@[sid] != 1,
+//@}
+//@before 1 for i in 0..nfa.states.len(){
+    proof {
+        assert(stack@.len() == 0);
+        assert forall|t: int| 0 <= t < n && t != 1 implies state_id_map@[t] != 1 by {
+            lemma_all_placed(*nfa, state_id_map@, done, t);
+        }
+    }
+//@}
+//@loop 4{
+    invariant
+        b_inv(*self, helper), nfa_tree(*nfa), n == nfa.states@.len(), state_id_map@.len() == n,
+        forall|i: int| 0 <= i < n ==> (#[trigger] state_id_map@[i]) < self.states@.len(),
+        forall|t: int| 0 <= t < n && t != 1 ==> #[trigger] state_id_map@[t] != 1,
+        forall|x: int| 0 <= x < self.states@.len() ==> (#[trigger] self.states@[x]).fail < self.states@.len(),
+//@}
+//@before 1 for closed_block_idx in helper.active_block_range(){
+    let ghost rs: int = if helper.num_blocks >= helper.num_free_blocks { helper.num_blocks - helper.num_free_blocks } else { 0 };
+    proof { lemma_window(helper); }
+//@}
+//@loop 5{
+    invariant
+        b_inv(*self, helper), rs * 256 == h_lo(helper), rs <= closed_block_idx, closed_block_idx < helper.num_blocks || closed_block_idx == helper.num_blocks,
+        forall|x: int| 0 <= x < self.states@.len() ==> (#[trigger] self.states@[x]).fail < self.states@.len(),
+//@}
+//@before 1 self.remove_invalid_checks(closed_block_idx, &helper);{
+    proof { assert(rs * 256 <= closed_block_idx as int * 256) by (nonlinear_arith) requires rs <= closed_block_idx; }
+//@}
+//@before 1 Ok(()){
+    proof {
+        lemma_window(helper);
+        assert(self.states@.len() % 256 == 0);
+    }
 //@}
 //@endimpl
